@@ -149,8 +149,39 @@ theorem insert_split (l : List Entry) (e : Entry) :
 /-! ### the state invariant -/
 
 def EvOk : Event → Prop
-  | .ran id w now rest => w ≤ now ∧ (∀ e ∈ rest, w ≤ e.when) ∧ id ∉ ids rest
+  | .ran id w now rest seq =>
+    w ≤ now ∧ (∀ e ∈ rest, w ≤ e.when) ∧ id ∉ ids rest ∧ (∀ e ∈ rest, e.when = w → seq < e.seq)
   | _ => True
+
+/-- among entries with the same due time, list order is scheduling order -/
+def Lex (l : List Entry) : Prop := l.Pairwise (fun a b => a.when = b.when → a.seq < b.seq)
+
+theorem insert_lex {l : List Entry} (e : Entry) (hs : Sorted l) (hl : Lex l) (hnew : ∀ x ∈ l, x.seq < e.seq) :
+    Lex (insert l e) := by
+  induction l with
+  | nil => simp [insert, Lex]
+  | cons y ys ih =>
+    unfold insert
+    have hy := List.pairwise_cons.mp hs
+    have hly := List.pairwise_cons.mp hl
+    split
+    · rename_i hlt
+      apply List.pairwise_cons.mpr
+      refine ⟨?_, hl⟩
+      intro z hz heq
+      rcases List.mem_cons.mp hz with rfl | hz
+      · omega
+      · have := hy.1 z hz; omega
+    · rename_i hge
+      apply List.pairwise_cons.mpr
+      refine ⟨?_, ih hy.2 hly.2 (fun x hx => hnew x (List.mem_cons_of_mem _ hx))⟩
+      intro z hz heq
+      rcases mem_insert.mp hz with rfl | hz
+      · exact hnew y List.mem_cons_self
+      · exact hly.1 z hz heq
+
+theorem remove_lex {l : List Entry} (id : Nat) (h : Lex l) : Lex (remove l id) :=
+  List.Pairwise.sublist (remove_sublist l id) h
 
 structure TInv (s : St) : Prop where
   sorted : Sorted s.todos
@@ -158,21 +189,38 @@ structure TInv (s : St) : Prop where
   known  : ∀ x ∈ ids s.todos, x ∈ s.known
   liveKnown : ∀ x ∈ s.live, x ∈ s.known
   logOk  : ∀ ev ∈ s.log, EvOk ev
+  lex    : Lex s.todos
+  seqLt  : ∀ e ∈ s.todos, e.seq < s.nextSeq
 
 theorem inv_init : TInv {} :=
-  ⟨List.Pairwise.nil, List.nodup_nil, by simp [ids], by simp, by simp⟩
+  ⟨List.Pairwise.nil, List.nodup_nil, by simp [ids], by simp, by simp, List.Pairwise.nil, by simp⟩
+
+theorem mem_remove {l : List Entry} {id : Nat} {x : Entry} (h : x ∈ remove l id) : x ∈ l :=
+  (remove_sublist l id).subset h
 
 theorem inv_move {s : St} (h : TInv s) (id : Nat) (w : Int) (hl : id ∈ s.live) :
-    TInv { s with todos := move s.todos id w } := by
-  refine ⟨move_sorted id w h.sorted, nodup_ids_move id w h.nodup, ?_, h.liveKnown, h.logOk⟩
-  intro x hx
-  rcases mem_ids_insert.mp hx with rfl | hx
-  · exact h.liveKnown _ hl
-  · exact h.known x (mem_ids_of_remove hx)
+    TInv { s with todos := move s.todos id w s.nextSeq, nextSeq := s.nextSeq + 1 } := by
+  refine ⟨insert_sorted _ (remove_sorted id h.sorted), nodup_ids_insert (nodup_ids_remove id h.nodup) (not_mem_ids_remove id h.nodup),
+    ?_, h.liveKnown, h.logOk, ?_, ?_⟩
+  · intro x hx
+    rcases mem_ids_insert.mp hx with rfl | hx
+    · exact h.liveKnown _ hl
+    · exact h.known x (mem_ids_of_remove hx)
+  · exact insert_lex _ (remove_sorted id h.sorted) (remove_lex id h.lex) (fun x hx => h.seqLt x (mem_remove hx))
+  · intro e he
+    rcases mem_insert.mp he with rfl | he
+    · simp
+    · have := h.seqLt e (mem_remove he); simp only; omega
 
 theorem inv_new {s : St} (h : TInv s) (id : Nat) (w : Int) (hk : id ∉ s.known) :
-    TInv { s with todos := insert s.todos ⟨id, w⟩, live := id :: s.live, known := id :: s.known } := by
-  refine ⟨insert_sorted _ h.sorted, nodup_ids_insert h.nodup (fun hm => hk (h.known id hm)), ?_, ?_, h.logOk⟩
+    TInv { s with todos := insert s.todos ⟨id, w, s.nextSeq⟩, nextSeq := s.nextSeq + 1, live := id :: s.live, known := id :: s.known } := by
+  refine ⟨insert_sorted _ h.sorted, nodup_ids_insert h.nodup (fun hm => hk (h.known id hm)), ?_, ?_, h.logOk,
+    insert_lex _ h.sorted h.lex (fun x hx => h.seqLt x hx), ?_⟩
+  rotate_left 2
+  · intro e he
+    rcases mem_insert.mp he with rfl | he
+    · simp
+    · have := h.seqLt e he; simp only; omega
   · intro x hx
     rcases mem_ids_insert.mp hx with rfl | hx
     · simp
@@ -194,7 +242,8 @@ theorem inv_applyOp {s : St} (h : TInv s) (op : BodyOp) : TInv (applyOp s op) :=
     · exact h
   | cancel id =>
     simp only [applyOp]; split
-    · refine ⟨remove_sorted id h.sorted, nodup_ids_remove id h.nodup, ?_, h.liveKnown, h.logOk⟩
+    · refine ⟨remove_sorted id h.sorted, nodup_ids_remove id h.nodup, ?_, h.liveKnown, h.logOk, remove_lex id h.lex,
+        fun e he => h.seqLt e (mem_remove he)⟩
       intro x hx; exact h.known x (mem_ids_of_remove hx)
     · exact h
   | newAt id w =>
@@ -206,12 +255,12 @@ theorem inv_applyOp {s : St} (h : TInv s) (op : BodyOp) : TInv (applyOp s op) :=
     · exact h
     · rename_i hk; exact inv_new h id _ hk
   | drop id =>
-    refine ⟨h.sorted, h.nodup, h.known, ?_, h.logOk⟩
+    refine ⟨h.sorted, h.nodup, h.known, ?_, h.logOk, h.lex, h.seqLt⟩
     intro x hx
     simp only [applyOp, List.mem_filter] at hx
     exact h.liveKnown x hx.1
-  | adv ns => exact ⟨h.sorted, h.nodup, h.known, h.liveKnown, h.logOk⟩
-  | stop => exact ⟨h.sorted, h.nodup, h.known, h.liveKnown, h.logOk⟩
+  | adv ns => exact ⟨h.sorted, h.nodup, h.known, h.liveKnown, h.logOk, h.lex, h.seqLt⟩
+  | stop => exact ⟨h.sorted, h.nodup, h.known, h.liveKnown, h.logOk, h.lex, h.seqLt⟩
 
 theorem inv_foldl_applyOp {s : St} (h : TInv s) (ops : List BodyOp) : TInv (ops.foldl applyOp s) := by
   induction ops generalizing s with
@@ -222,7 +271,7 @@ theorem inv_stepTodos (fuel : Nat) (d : Deadline) {s : St} (h : TInv s) : TInv (
   induction fuel generalizing d s with
   | zero =>
     simp only [stepTodos]
-    refine ⟨h.sorted, h.nodup, h.known, h.liveKnown, ?_⟩
+    refine ⟨h.sorted, h.nodup, h.known, h.liveKnown, ?_, h.lex, h.seqLt⟩
     intro ev hev
     rcases List.mem_cons.mp hev with rfl | hev
     · trivial
@@ -235,16 +284,17 @@ theorem inv_stepTodos (fuel : Nat) (d : Deadline) {s : St} (h : TInv s) : TInv (
       split
       · exact h
       · rename_i hdue
-        have hs := h.sorted; have hn := h.nodup; have hk := h.known
-        rw [htodos] at hs hn hk
+        have hs := h.sorted; have hn := h.nodup; have hk := h.known; have hlx := h.lex; have hsq := h.seqLt
+        rw [htodos] at hs hn hk hlx hsq
         have hs' := List.pairwise_cons.mp hs
+        have hlx' := List.pairwise_cons.mp hlx
         simp only [ids, List.map_cons, List.nodup_cons] at hn
-        have h1 : TInv { s with todos := rest, log := .ran front.id front.when d.now rest :: s.log } := by
-          refine ⟨hs'.2, hn.2, ?_, h.liveKnown, ?_⟩
+        have h1 : TInv { s with todos := rest, log := .ran front.id front.when d.now rest front.seq :: s.log } := by
+          refine ⟨hs'.2, hn.2, ?_, h.liveKnown, ?_, hlx'.2, fun e he => hsq e (List.mem_cons_of_mem _ he)⟩
           · intro x hx; exact hk x (by simp [ids] at hx ⊢; exact Or.inr hx)
           · intro ev hev
             rcases List.mem_cons.mp hev with rfl | hev
-            · exact ⟨by omega, hs'.1, hn.1⟩
+            · exact ⟨by omega, hs'.1, hn.1, fun e he heq => hlx'.1 e he heq.symm⟩
             · exact h.logOk ev hev
         have h2 := inv_foldl_applyOp h1 (s.body front.id)
         simp only
@@ -264,10 +314,10 @@ theorem inv_pollSockets (clamp : Bool) (t : Int) {s : St} (h : TInv s) : TInv (p
   generalize (if clamp = true then toMsec t else toMsecLegacy t) = ms
   simp only
   split
-  · exact ⟨h.sorted, h.nodup, h.known, h.liveKnown, hlog _⟩
+  · exact ⟨h.sorted, h.nodup, h.known, h.liveKnown, hlog _, h.lex, h.seqLt⟩
   · split
-    · exact ⟨h.sorted, h.nodup, h.known, h.liveKnown, hlog _⟩
-    · exact ⟨h.sorted, h.nodup, h.known, h.liveKnown, hlog _⟩
+    · exact ⟨h.sorted, h.nodup, h.known, h.liveKnown, hlog _, h.lex, h.seqLt⟩
+    · exact ⟨h.sorted, h.nodup, h.known, h.liveKnown, hlog _, h.lex, h.seqLt⟩
 
 theorem inv_step (clamp : Bool) (fuel : Nat) (t : Int) {s : St} (h : TInv s) : TInv (step clamp fuel t s) := by
   unfold step
@@ -281,16 +331,16 @@ theorem inv_userOp (clamp : Bool) (fuel : Nat) {s : St} (h : TInv s) (op : Op) :
     simp only [userOp]; split
     · exact h
     · exact inv_applyOp (s := { s with bodies := (id, body) :: s.bodies })
-        ⟨h.sorted, h.nodup, h.known, h.liveKnown, h.logOk⟩ _
+        ⟨h.sorted, h.nodup, h.known, h.liveKnown, h.logOk, h.lex, h.seqLt⟩ _
   | newIn id ms body =>
     simp only [userOp]; split
     · exact h
     · exact inv_applyOp (s := { s with bodies := (id, body) :: s.bodies })
-        ⟨h.sorted, h.nodup, h.known, h.liveKnown, h.logOk⟩ _
+        ⟨h.sorted, h.nodup, h.known, h.liveKnown, h.logOk, h.lex, h.seqLt⟩ _
   | newIdle id body =>
     simp only [userOp]; split
     · exact h
-    · refine ⟨h.sorted, h.nodup, ?_, ?_, h.logOk⟩
+    · refine ⟨h.sorted, h.nodup, ?_, ?_, h.logOk, h.lex, h.seqLt⟩
       · intro x hx; exact List.mem_cons_of_mem _ (h.known x hx)
       · intro x hx
         rcases List.mem_cons.mp hx with rfl | hx
@@ -299,7 +349,7 @@ theorem inv_userOp (clamp : Bool) (fuel : Nat) {s : St} (h : TInv s) (op : Op) :
   | call op => exact inv_applyOp h op
   | clock ns =>
     simp only [userOp]; split
-    · exact ⟨h.sorted, h.nodup, h.known, h.liveKnown, h.logOk⟩
+    · exact ⟨h.sorted, h.nodup, h.known, h.liveKnown, h.logOk, h.lex, h.seqLt⟩
     · exact h
   | step t => exact inv_step clamp fuel t h
 
